@@ -104,6 +104,7 @@ func (x *Exec) buildVC(o *Obligation) *VC {
 	if len(globs) > 1 {
 		vc.Asserts = append(vc.Asserts, App("distinct", "Bool", globs...))
 	}
+	vc.Asserts = append(vc.Asserts, heapWFAxioms(append(append([]*Term{}, vc.Asserts...), o.Goal))...)
 	vc.Asserts = append(vc.Asserts, x.unfoldHFuncs(append(append([]*Term{}, vc.Asserts...), o.Goal))...)
 	vc.Asserts = append(vc.Asserts, normAxioms()...)
 	vc.Asserts = append(vc.Asserts, ifaceFacts()...)
@@ -300,4 +301,56 @@ func solveText(dir, name, text string, timeoutS int, agree bool) *SolveResult {
 		res.Output = fmt.Sprintf("solver disagreement: %v", res.All)
 	}
 	return res
+}
+
+// heapWFAxioms: for every heap array constant occurring in ts, the references stored in
+// objects below its watermark are below that watermark (Go heaps never hold dangling refs).
+func heapWFAxioms(ts []*Term) []*Term {
+	seen := map[*Term]bool{}
+	var found []*Term
+	var rec func(t *Term)
+	rec = func(t *Term) {
+		if seen[t] {
+			return
+		}
+		seen[t] = true
+		if t.kind == kConst {
+			if _, ok := heapConsts[t]; ok {
+				found = append(found, t)
+			}
+		}
+		for _, a := range t.Args {
+			rec(a)
+		}
+	}
+	for _, t := range ts {
+		rec(t)
+	}
+	sort.Slice(found, func(i, j int) bool { return found[i].Op < found[j].Op })
+	var out []*Term
+	for _, h := range found {
+		info := heapConsts[h]
+		vt := heapValType[info.key]
+		if vt == nil {
+			continue
+		}
+		r := BoundVar("q_wr", "Int")
+		if strings.HasPrefix(info.key, "EH_") {
+			j := BoundVar("q_wj", "Int")
+			v := Select(Select(h, r), j)
+			body := wfBound(info.bound, v, vt)
+			if body == True {
+				continue
+			}
+			out = append(out, Forall([]*Term{r, j}, [][]*Term{{v}}, Implies(And(Gt(r, Int(0)), Lt(r, info.bound)), body)))
+			continue
+		}
+		v := Select(h, r)
+		body := wfBound(info.bound, v, vt)
+		if body == True {
+			continue
+		}
+		out = append(out, Forall([]*Term{r}, [][]*Term{{v}}, Implies(And(Gt(r, Int(0)), Lt(r, info.bound)), body)))
+	}
+	return out
 }
